@@ -240,17 +240,66 @@ fn send_request_failed_error(
     }))
 }
 
+/// The LSP measures columns in UTF-16 code units by default, whereas our
+/// analyzer reports byte offsets into the (UTF-8) line. This converts a byte
+/// offset into a UTF-16 column, clamping it to the line and, if it falls inside
+/// a multi-byte character, moving it to that character's start (or to its end
+/// if `round_up` is set, so that a range around it doesn't collapse).
+struct Utf16Columns<'a> {
+    line: &'a str,
+    /// A byte offset (on a character boundary) whose column we already know...
+    known_offset: usize,
+    /// ...and that column.
+    known_column: u32,
+}
+
+impl<'a> Utf16Columns<'a> {
+    fn new(line: &'a str) -> Self {
+        Utf16Columns {
+            line,
+            known_offset: 0,
+            known_column: 0,
+        }
+    }
+
+    /// Offsets are usually asked for in increasing order (tokens of a line),
+    /// so we continue counting from the previous answer when we can, which
+    /// keeps very long lines linear.
+    fn column(&mut self, byte_offset: usize, round_up: bool) -> u32 {
+        let mut offset = byte_offset.min(self.line.len());
+        while !self.line.is_char_boundary(offset) {
+            if round_up {
+                offset += 1;
+            } else {
+                offset -= 1;
+            }
+        }
+        if offset < self.known_offset {
+            self.known_offset = 0;
+            self.known_column = 0;
+        }
+        self.known_column += self.line[self.known_offset..offset].encode_utf16().count() as u32;
+        self.known_offset = offset;
+        self.known_column
+    }
+}
+
 fn get_semantic_tokens(analyzer: &SourceFileAnalyzer) -> SemanticTokens {
     let mut data: Vec<SemanticToken> = vec![];
     let mut prev_line_number = 0;
+    let lines = analyzer.source_file_lines();
     for (line_number, line) in analyzer.token_types().iter().enumerate() {
         let mut prev_token_start = 0;
+        let line_text = lines.get(line_number).map(|s| s.as_str()).unwrap_or("");
+        let mut columns = Utf16Columns::new(line_text);
         for (abasic_token_type, range) in line {
             let delta_line = (line_number - prev_line_number) as u32;
             prev_line_number = line_number;
-            let delta_start = (range.start - prev_token_start) as u32;
-            prev_token_start = range.start;
-            let length = range.len() as u32;
+            let token_start = columns.column(range.start, false);
+            let token_end = columns.column(range.end, true);
+            let delta_start = token_start - prev_token_start;
+            prev_token_start = token_start;
+            let length = token_end - token_start;
             let token_type = abasic_token_type_to_lsp_token_type(*abasic_token_type);
             data.push(SemanticToken {
                 delta_line,
@@ -274,9 +323,15 @@ fn analyze_source_file(analyzer: &SourceFileAnalyzer) -> Vec<Diagnostic> {
     let source_map = analyzer.source_file_map();
     for message in messages {
         if let Some((line, range)) = source_map.map_to_source(&message) {
+            let line_text = analyzer
+                .source_file_lines()
+                .get(line)
+                .map(|s| s.as_str())
+                .unwrap_or("");
+            let mut columns = Utf16Columns::new(line_text);
             let diag_range = Range::new(
-                Position::new(line as u32, range.start as u32),
-                Position::new(line as u32, range.end as u32),
+                Position::new(line as u32, columns.column(range.start, false)),
+                Position::new(line as u32, columns.column(range.end, true)),
             );
             let (severity, content) = match message {
                 DiagnosticMessage::Warning(_line, _loc, msg) => {
